@@ -131,6 +131,11 @@ class C07(PropBase):
         # a second module with classes of the same names (other members): calls issued from there must still
         # reach the first module's classes at every level of the recursion
         mod1 = {"name": "vw1", "future": False, "decls": [{"d": "dataclass", "n": d["n"], "fields": [{"n": "zz", "t": {"k": "int"}, "default": 0}], "flags": {}} for d in group]}
+        # two classes of one name in the two modules, met in one graph: the second module's class holds the first
+        # module's (which is recursive) on two edges
+        mod["decls"].append({"d": "raw", "n": "VwTwin", "src": "@dataclasses.dataclass\nclass VwTwin:\n    sku: str = ''\n    qty: int = 0\n    parent: 'typing.Optional[VwTwin]' = None\n"})
+        mod1["decls"].append({"d": "raw", "n": "VwTwin", "src": "@dataclasses.dataclass\nclass VwTwin:\n    name: str = ''\n"
+                                                               "    parts: 'list[vw0.VwTwin]' = dataclasses.field(default_factory=list)\n    owner: 'typing.Optional[vw0.VwTwin]' = None\n"})
         world = {"modules": [mod, mod1]}
         env = self.base_env(rng, fault_free=True)
         limit = rng.choice([1000, 1000, 2000, 5000]) if "reclimit" in sw else 1000
@@ -281,6 +286,12 @@ class C07(PropBase):
             steps.append(step)
         if rng.random() < 0.5:
             steps.insert(0, {"op": "build", "kind": rng.choice(["marshaller", "codec", "unmarshaller"]), "t": {"k": "raw", "src": "VwInv"}, "mod": "vw0"})
+        if rng.random() < 0.4:
+            inner = lambda sku, qty, parent=None: {"$obj": "vw0.VwTwin", "f": dict({"sku": sku, "qty": qty}, **({"parent": parent} if parent else {}))}  # noqa: E731
+            want = {"$obj": "vw1.VwTwin", "f": {"name": "root", "parts": {"$list": [inner("s1", 1, inner("s2", 2, inner("s4", 4)))]}, "owner": inner("s3", 3)}}
+            wire = {"$dict": [["name", "root"], ["parts", {"$list": [{"$dict": [["sku", "s1"], ["qty", "1"], ["parent", {"$dict": [["sku", "s2"], ["qty", "2"], ["parent", {"$dict": [["sku", "s4"], ["qty", 4]]}]]}]]}]}],
+                              ["owner", {"$dict": [["sku", "s3"], ["qty", "3"]]}]]}
+            steps.insert(rng.randint(0, len(steps)), {"op": "unmarshal_mixed", "t": {"k": "ref", "m": "vw1", "n": "VwTwin"}, "x": wire, "v": want, "mod": rng.choice(["vw0", "vw1"]), "vdepth": 3})
         other_first = rng.random() < 0.5
         for st in steps:
             t = st.get("t")
